@@ -402,6 +402,19 @@ fn solvers(s: &Sparse<f64>, b: &Vector<f64>, x0: &Vector<f64>, maxit: usize, tol
     v
 }
 fn c08(rng: &mut Rng, out: &mut Out) {
+    // the stopping tests are written with Vector::norm_2 and Vector::dot: check them directly (largest entry anywhere)
+    for it in 0..200 { case();
+        let n = 1 + (it % 12);
+        let mut v: Vec<f64> = (0..n).map(|_| rng.f()).collect();
+        let big = rng.below(n as u64) as usize; v[big] *= 1.0 + (it % 7) as f64 * 3.0;
+        let w: Vec<f64> = (0..n).map(|_| rng.f()).collect();
+        let e2 = v.iter().map(|x| x * x).sum::<f64>().sqrt();
+        let g2 = Vec64::create(v.clone()).norm_2();
+        if !((g2 - e2).abs() <= 1e-12 * (1.0 + e2)) { report(out, "C08 norm_2 (used by every stopping test) is sqrt(sum x_i^2)", format!("v={:?}", v), format!("{}", g2), format!("{}", e2)); }
+        let ed: f64 = v.iter().zip(&w).map(|(a, b)| a * b).sum();
+        let gd = Vec64::create(v.clone()).dot(&Vec64::create(w.clone()));
+        if !((gd - ed).abs() <= 1e-12 * (1.0 + ed.abs())) { report(out, "C08 dot (used by every recurrence) is sum x_i y_i", format!("v={:?} w={:?}", v, w), format!("{}", gd), format!("{}", ed)); }
+    }
     for it in 0..200 { case();
         let n = 1 + rng.below(8) as usize;
         let mut d = vec![vec![0.0f64; n]; n];
@@ -522,6 +535,23 @@ fn c10(rng: &mut Rng, out: &mut Out) {
             Err(e) => report(out, "C10 root finder panicked on degree >= 1", ctx, e, format!("{} roots", deg)),
         }
     } }
+    // closed-form degrees 1 and 2 with coefficients of mixed sign and scale (ratio up to 1e6): the stable formulae are
+    // accurate to rounding, so the normwise backward error |p(z)| / (max|a_k| max(1,|z|)^n) is held to 1e-13 here
+    for it in 0..400 { case();
+        let deg = 1 + (it % 2);
+        let sc = [1.0, 1.0e3, 1.0e6, 1.0e-3, 1.0e-6];
+        let c: Vec<Cmplx> = (0..=deg).map(|_| { let m = sc[rng.below(5) as usize]; let re = rng.f() * m; let im = if it % 3 == 0 { rng.f() * m } else { 0.0 }; Cmplx::new(re, im) }).collect();
+        if c[deg].abs() == 0.0 { continue; }
+        for refine in [false, true] { case();
+            let p = Polynomial::<Cmplx>::new(c.clone());
+            if let Ok(r) = quiet(|| p.roots(refine)) {
+                let amax = c.iter().fold(0.0f64, |s, z| s.max(z.abs()));
+                for k in 0..r.size() { let z = r[k]; let mut pv = Cmplx::new(0.0, 0.0); for j in (0..=deg).rev() { pv = pv * z + c[j]; }
+                    let be = pv.abs() / (amax * z.abs().max(1.0).powi(deg as i32));
+                    if !(be <= 1.0e-13) { report(out, "C10 closed-form roots (degree <= 2) are accurate to rounding in the normwise backward error", format!("coeffs={:?} refine={}", c.iter().map(|z| (z.real, z.imag)).collect::<Vec<_>>(), refine), format!("root ({}, {}) backward error {:e}", z.real, z.imag, be), "<= 1e-13".into()); } }
+            }
+        }
+    }
     if quiet(|| Polynomial::<f64>::new(vec![3.0]).roots(false)).is_ok() { report(out, "C10 a degree-0 polynomial is rejected", "coeffs=[3.0]".into(), "returned".into(), "panic".into()); }
 }
 
@@ -531,7 +561,7 @@ fn pev(c: &[Q], x: Q) -> Q { c.iter().rev().fold(Q::int(0), |s, a| s * x + *a) }
 fn coeffs_of(p: &Polynomial<Q>) -> Vec<Q> { (0..p.size()).map(|i| p[i]).collect() }
 fn c11(rng: &mut Rng, out: &mut Out) {
     for _ in 0..300 { case();
-        let (la, lb) = (rng.below(6) as usize, rng.below(6) as usize);
+        let (la, lb) = (rng.below(10) as usize, rng.below(10) as usize);      // lengths 0..9: degrees up to 8 and the empty polynomial
         let (a, b) = (pq(rng, la), pq(rng, lb));
         let (pa, pb) = (Polynomial::new(a.clone()), Polynomial::new(b.clone()));
         let x = rng.q(); let ctx = format!("p={} q={} x={:?}", qs(&a), qs(&b), x);
@@ -606,7 +636,7 @@ fn c13(rng: &mut Rng, out: &mut Out) {
 fn cl(a: Cmplx, b: Cmplx) -> bool { (a - b).abs() <= 1e-9 * (1.0 + a.abs() + b.abs()) }
 fn c14(_rng: &mut Rng, out: &mut Out) {
     let mut pts = vec![];
-    for &re in &[-3.0, -2.0, -0.5, 0.0, 0.5, 2.0, 3.0] { for &im in &[-2.0, -0.5, 0.0, 0.5, 2.0] { if re != 0.0 || im != 0.0 { pts.push(Cmplx::new(re, im)); } } }
+    for &re in &[-3.0, -2.0, -0.5, 0.0, 0.5, 2.0, 3.0] { for &im in &[-2.0, -0.5, -1.0e-7, 0.0, 1.0e-7, 0.5, 2.0] { if re != 0.0 || im != 0.0 { pts.push(Cmplx::new(re, im)); } } }
     let one = Cmplx::new(1.0, 0.0);
     for &z in &pts { case();
         let ctx = format!("z=({}, {})", z.real, z.imag);
@@ -808,6 +838,18 @@ fn c20(rng: &mut Rng, out: &mut Out) {
         let (ma, mb) = (Matrix::<Q>::new(a, b, Q::int(1)), Matrix::<Q>::new(b, a, Q::int(1)));
         must_panic(out, format!("Matrix({}x{}) + Matrix({}x{})", a, b, b, a), quiet(|| { let _ = &ma + &mb; }));
         must_panic(out, format!("Matrix({}x{}) * Matrix({}x{})", a, b, a, b), quiet(|| { let _ = &ma * &ma; }));
+        must_panic(out, format!("Matrix({}x{}) - Matrix({}x{})", a, b, b, a), quiet(|| { let _ = &ma - &mb; }));
+        must_panic(out, format!("Matrix({}x{}) += &Matrix({}x{}) (same number of elements)", a, b, b, a), quiet(|| { let mut t = ma.clone(); t += &mb; }));
+        must_panic(out, format!("Matrix({}x{}) -= &Matrix({}x{}) (same number of elements)", a, b, b, a), quiet(|| { let mut t = ma.clone(); t -= &mb; }));
+        must_panic(out, format!("Matrix({}x{}) += Matrix({}x{}) (same number of elements)", a, b, b, a), quiet(|| { let mut t = ma.clone(); t += mb.clone(); }));
+        // operands built by a shape-changing operation: the transpose of a x b is b x a and is accepted / rejected as such
+        { let mt = ma.transpose();
+          if mt.rows() != b || mt.cols() != a { report(out, "C20 transpose exchanges the dimensions (shape checks downstream rely on it)", format!("Matrix({}x{}).transpose()", a, b), format!("{}x{}", mt.rows(), mt.cols()), format!("{}x{}", b, a)); }
+          must_panic(out, format!("Matrix({}x{}).transpose() + Matrix({}x{})", a, b, a, b), quiet(|| { let _ = &mt + &ma; }));
+          must_panic(out, format!("Matrix({}x{}).transpose().multiply(Vector({}))", a, b, b), quiet(|| { let _ = mt.multiply(&vb); }));
+          if quiet(|| { let _ = &mt + &mb; }).is_err() { report(out, "C20 conformable operands are accepted", format!("Matrix({}x{}).transpose() + Matrix({}x{})", a, b, b, a), "panic".into(), "a sum".into()); }
+          let mut ip = ma.clone(); ip.transpose_in_place();
+          if ip.rows() != b || ip.cols() != a { report(out, "C20 transpose exchanges the dimensions (shape checks downstream rely on it)", format!("Matrix({}x{}).transpose_in_place()", a, b), format!("{}x{}", ip.rows(), ip.cols()), format!("{}x{}", b, a)); } }
         must_panic(out, format!("Matrix({}x{}).multiply(Vector({}))", a, b, a), quiet(|| { let _ = ma.multiply(&va); }));
         must_panic(out, format!("Matrix({}x{}).set_col({}, ..)", a, b, b), quiet(|| { let mut t = ma.clone(); t.set_col(b, Vector::<Q>::new(a, Q::int(0))); }));
         must_panic(out, format!("Matrix({}x{}).solve_basic(Vector({}))", a, a, b), quiet(|| { let mut t = Matrix::<Q>::eye(a); let _ = t.solve_basic(&vb); }));
